@@ -281,8 +281,14 @@ def rename_file_check(run, d):
     sink = io.StringIO()
     good = "# comment\nCONFIG_OLD_A CONFIG_NEW_A\nCONFIG_OLD_B !CONFIG_NEW_B\n\n"
     cases = [("compliant", good, True), ("lowercase-new", "CONFIG_OLD_A CONFIG_new_a\n", False), ("no-prefix", "OLD_A CONFIG_NEW_A\n", False)]
+    # names at the documented limit (50 characters, the CONFIG_ prefix not counted), in a rename file and in a Kconfig file
+    for n_ in (43, 44, 49, 50):
+        cases.append(("new-name-%d" % n_, "CONFIG_OLD_A CONFIG_%s\n" % ("N" * n_), True))
+        cases.append(("kconfig-name-%d" % n_, 'menu "m"\n\n    config %s\n        bool "b"\n        default y\n\nendmenu\n' % ("N" * n_), True))
+    cases.append(("new-name-51", "CONFIG_OLD_A CONFIG_%s\n" % ("N" * 51), False))
+    cases.append(("kconfig-name-51", 'menu "m"\n\n    config %s\n        bool "b"\n\nendmenu\n' % ("N" * 51), False))
     for name, text, compliant in cases:
-        p = os.path.join(d, "sdkconfig.rename")
+        p = os.path.join(d, "Kconfig" if name.startswith("kconfig-") else "sdkconfig.rename")
         kc.write_text(p, text)
         oks = []
         for _ in range(4):
@@ -299,7 +305,9 @@ def rename_file_check(run, d):
         with open(p) as f:
             final = f.read()
         if compliant and (oks != [True] or final != text or os.path.exists(p + ".new")):
-            run.report("a compliant sdkconfig.rename is not left alone: verdicts %s" % oks, {"file": text, "after": final}, {"rename-file", "P-CanonicalOK"})
+            run.report("a compliant %s (%s) is not left alone: verdicts %s" % (os.path.basename(p), name, oks), {"file": text, "after": final}, {"rename-file", "P-CanonicalOK", name})
+        if not compliant and name.endswith("-51") and (True in oks):
+            run.report("%s (%s): a name of 51 characters is reported OK" % (os.path.basename(p), name), {"file": text, "after": final}, {"rename-file", "P-CanonicalOK", name})
         if oks and oks[-1]:
             with contextlib.redirect_stdout(sink), contextlib.redirect_stderr(sink):
                 ok2 = kcc.validate_file(p, replace=True)
